@@ -958,7 +958,8 @@ void case_apply(uint64_t case_no, vh::Rng&) {
     const int len = static_cast<int>(syms.size());
     // complete product up to full_len; above that every list sees a rotating 1/div share of the sequences
     const int full_len = static_cast<int>(vh::arg_int("full_len", 3));
-    Effort ef{1, 0, true};
+    // every split of the sequence into buffers only up to length mask_len, else one seeded split per list
+    Effort ef{1, 0, len <= static_cast<int>(vh::arg_int("mask_len", 3))};
     if (len > full_len) {
         const unsigned div = static_cast<unsigned>(vh::arg_int(len == full_len + 1 ? "div1" : "div2", len == full_len + 1 ? 16 : 64));
         ef = Effort{div, vh::mix(vh::st().seed, index) % div, div == 1};
